@@ -59,6 +59,8 @@ type Exec struct {
 	zeroArrs   map[string]*Term
 
 	loopWrites  map[string]map[string]bool
+	loopAddrs   map[string]map[string]map[uint64]bool
+	loopThreshold map[string]int
 	activeLoops []string
 
 	notes    []string
@@ -96,6 +98,9 @@ type Exec struct {
 	ranged      map[int]bool
 	curAlloc    *Term
 	slotAxiom   bool
+	pendingDyn  map[string]*Term
+	dynDone     map[string]bool
+	extDone     map[string]bool
 }
 
 type Frame struct {
@@ -165,6 +170,9 @@ func (x *Exec) reset() {
 	x.nilChecked = nil
 	x.slenAxiom = false
 	x.slotAxiom = false
+	x.pendingDyn = map[string]*Term{}
+	x.dynDone = map[string]bool{}
+	x.extDone = map[string]bool{}
 	x.ranged = map[int]bool{}
 }
 
@@ -175,7 +183,14 @@ func (x *Exec) note(s string) {
 	}
 }
 
-func (x *Exec) noteWrite(key string) {
+func (x *Exec) noteWrite(key string) { x.noteWriteAt(key, nil) }
+
+// noteWriteAt records that component key is written (at object/array address
+// addr, nil = unknown) inside the active loops. In the dry pass, addresses that
+// already existed when the loop was entered are loop invariant; they are
+// remembered by structural hash so that the real pass can havoc the component
+// at exactly those addresses (no quantified frame needed).
+func (x *Exec) noteWriteAt(key string, addr *Term) {
 	for _, l := range x.activeLoops {
 		m := x.loopWrites[l]
 		if m == nil {
@@ -183,6 +198,22 @@ func (x *Exec) noteWrite(key string) {
 			x.loopWrites[l] = m
 		}
 		m[key] = true
+		if !x.dry {
+			continue
+		}
+		am := x.loopAddrs[l]
+		if am == nil {
+			am = map[string]map[uint64]bool{}
+			x.loopAddrs[l] = am
+		}
+		if am[key] == nil {
+			am[key] = map[uint64]bool{}
+		}
+		if addr == nil || addr.open || addr.id >= x.loopThreshold[l] {
+			am[key][0] = true // unknown / loop-variant address
+		} else {
+			am[key][addr.h] = true
+		}
 	}
 }
 
@@ -232,9 +263,9 @@ func (x *Exec) oblige(st *State, kind, label, site, src string, cond *Term) {
 
 // obligeParts records one obligation whose goal is the conjunction of parts
 // (each part already carries its own path condition).
-func (x *Exec) obligeParts(kind, label, site, src string, parts []*Term) {
+func (x *Exec) obligeParts(kind, label, site, src string, parts []*Term) *Oblig {
 	if x.dry {
-		return
+		return nil
 	}
 	name := fmt.Sprintf("%s/%s[%s]", x.unitName, kind, label)
 	if site != "" {
@@ -251,6 +282,7 @@ func (x *Exec) obligeParts(kind, label, site, src string, parts []*Term) {
 		o.Trivial = true
 	}
 	x.obligs = append(x.obligs, o)
+	return o
 }
 
 // ---- CFG helpers ----
@@ -702,6 +734,7 @@ func (x *Exec) enterLoop(fr *Frame, li *loopInfo, in *State, phiEntry map[*ssa.P
 		}
 	}
 	if x.dry {
+		x.loopThreshold[li.key] = x.C.nextID
 		x.havocAll(st)
 		for _, phi := range phis {
 			v := x.symbolicLike(phiEntry[phi], "phi!"+phi.Name(), phi.Type())
@@ -734,6 +767,7 @@ func (x *Exec) enterLoop(fr *Frame, li *loopInfo, in *State, phiEntry map[*ssa.P
 	}
 	sort.Strings(keys)
 	pre := in
+	pointwise := map[string]bool{}
 	for _, k := range keys {
 		if strings.HasPrefix(k, "cell:") {
 			ck := strings.TrimPrefix(k, "cell:")
@@ -746,17 +780,27 @@ func (x *Exec) enterLoop(fr *Frame, li *loopInfo, in *State, phiEntry map[*ssa.P
 		if !ok {
 			continue
 		}
+		if pw := x.pointwiseHavoc(st, li.key, k, srt); pw != nil {
+			st.Heap[k] = pw
+			pointwise[k] = true
+			continue
+		}
 		st.Heap[k] = c.Fresh("Hl!"+k, srt)
 	}
 	st.Alloc = c.Fresh("alloc!loop", SInt)
 	x.assume(st, c.Le(pre.Alloc, st.Alloc))
 	x.curAlloc = st.Alloc
+	var fkeys []string
 	for _, k := range keys {
+		if pointwise[k] {
+			continue
+		}
+		fkeys = append(fkeys, k)
 		if _, ok := x.compSorts[k]; ok && !strings.HasPrefix(k, "cell:") {
 			x.rangeAxiom(k, st.Heap[k])
 		}
 	}
-	x.frameAxioms(st, keys)
+	x.frameAxioms(st, fkeys)
 	for _, phi := range phis {
 		v := x.symbolicLike(phiEntry[phi], "phi!"+phi.Name(), phi.Type())
 		li.phiVals[phi] = v
@@ -772,6 +816,11 @@ func (x *Exec) enterLoop(fr *Frame, li *loopInfo, in *State, phiEntry map[*ssa.P
 	}
 	if ls.Decreases != nil {
 		li.measure = x.evalInt(ls.Decreases, env)
+	}
+	for _, h := range ls.Hints {
+		t := x.evalBool(h.E, env)
+		x.oblige(st, "hint", fmt.Sprintf("L%d.%s", li.ordinal, h.Label), fr.site, h.Src, t)
+		x.assume(st, t)
 	}
 	li.headSt = st
 	return st
@@ -1004,4 +1053,59 @@ func (x *Exec) splitReturn(fr *Frame, b *ssa.BasicBlock, edge map[*ssa.BasicBloc
 		*rets = append(*rets, retInfo{e.Clone(), vals})
 	}
 	return true
+}
+
+// pointwiseHavoc: if every write of the loop to component k goes to an address
+// that is loop invariant (known from the dry pass), the arbitrary-iteration
+// value of k is the entry value updated at exactly those addresses.
+func (x *Exec) pointwiseHavoc(st *State, loopKey, k string, srt Sort) *Term {
+	am := x.loopAddrs[loopKey][k]
+	if len(am) == 0 || am[0] || len(am) > 4 {
+		return nil
+	}
+	cur, ok := st.Heap[k]
+	if !ok {
+		return nil
+	}
+	var addrs []*Term
+	for h := range am {
+		t := x.C.byHash[h]
+		if t == nil || t.sort != SInt {
+			return nil
+		}
+		addrs = append(addrs, t)
+	}
+	sort.Slice(addrs, func(i, j int) bool { return addrs[i].id < addrs[j].id })
+	res := cur
+	for _, a := range addrs {
+		v := x.C.Fresh("Hp!"+k, srt.ElemSort())
+		res = x.C.Store(res, a, v)
+		// the fresh cell value is of the component's type
+		x.pointRange(k, v, st)
+	}
+	return res
+}
+
+func (x *Exec) pointRange(k string, v *Term, st *State) {
+	l, ok := x.compLeaf[k]
+	if !ok || l.Type == nil || v.sort != SInt {
+		return
+	}
+	c := x.C
+	switch l.Role {
+	case "len", "cap", "off":
+		x.assumeGlobal(c.InRange(v, c.Int(0), c.Add(c.Pow2(47), c.Int(1))))
+	case "arr":
+		x.assumeGlobal(c.And(c.Le(c.Int(0), v), c.Le(v, st.Alloc)))
+	case "":
+		if b, isB := types.Unalias(l.Type).Underlying().(*types.Basic); isB {
+			if lo, hi, ok := intRange(b); ok {
+				x.assumeGlobal(c.InRange(v, c.BigInt(lo), c.BigInt(hi)))
+			}
+		}
+		switch types.Unalias(l.Type).Underlying().(type) {
+		case *types.Pointer, *types.Map, *types.Chan:
+			x.assumeGlobal(c.And(c.Le(c.Int(0), v), c.Le(v, st.Alloc)))
+		}
+	}
 }
